@@ -455,6 +455,19 @@ def main():
             unit, fn_pats = u["unit"], u["functions"]
             try:
                 r = run_verus_unit(unit, workdir, a.tier, seed)
+                if a.tier == "thorough":
+                    # proof stability: the whole unit is verified a second time under a different solver seed; an obligation that
+                    # is discharged under one seed and not under the other is reported as undecided (never as a violation)
+                    r2 = run_verus_unit(unit, workdir, a.tier, (seed or 0) + 101)
+                    cmds.append(r2["cmd"])
+                    for k_, f2 in r2["functions"].items():
+                        f1 = r["functions"].get(k_)
+                        if f1 is not None and f1["success"] != f2["success"] and k_ != "canary_must_fail":
+                            f1["success"] = False
+                            f1["undecided"] = True
+                            f1["errors"] = f1["errors"] or [{"text": "unstable proof: discharged under one solver seed, not under another", "msg": "unstable", "line": 0}]
+                        if f1 is not None:
+                            f1["us"] = max(f1["us"], f2["us"])
             except Undecided as e:
                 undecided.append(str(e))
                 continue
